@@ -13,7 +13,12 @@ trap 'rm -rf "$SCR"' EXIT
 cd "$ENGINE"
 FUNCS="transaction.writePendingAndCommit,transaction.Commit,transaction.close,blockStore.writeBlock,blockStore.writeData,blockStore.handleRollback,blockStore.syncBlocks,dbCache.flush,dbCache.commitTx,dbCache.commitTreaps,dbCache.updateDB,dbCache.needsFlush,dbCache.Close,db.Close"
 go build -o "$SCR/vinst" ./vinst
-"$SCR/vinst" -repo "$REPO" -out "$SCR/ov" -pkg database/ffldb -call verifCP -funcs "$FUNCS"
+# named functions that exist are instrumented, plus every function of the three files that calls a
+# file or leveldb write primitive (so that moved / inlined / renamed code keeps its crash points)
+"$SCR/vinst" -repo "$REPO" -out "$SCR/ov" -pkg database/ffldb -call verifCP -funcs "$FUNCS" \
+  -auto-files db.go,dbcache.go,blockio.go,reconcile.go \
+  -auto-calls OpenTransaction,Write,WriteAt,Truncate,Sync,Remove,OpenFile,openWriteFileFunc,deleteFileFunc,commitTreaps,writeBlock,handleRollback
 N="$(wc -l < "$SCR/ov/sites.txt")"
+F="$(cat "$SCR/ov/funcs.txt")"
 # shellcheck disable=SC2086
-go build -tags verif ${VERIF_MODFLAGS:-} -overlay "$SCR/ov/overlay.json" -ldflags "-X main.instrumentedSites=$N" -o "$VERIF_BIN" ./checks/c17
+go build -tags verif ${VERIF_MODFLAGS:-} -overlay "$SCR/ov/overlay.json" -ldflags "-X main.instrumentedSites=$N -X main.instrumentedFuncs=$F" -o "$VERIF_BIN" ./checks/c17
